@@ -74,13 +74,19 @@ def V(sig, what, **detail):
     return {"sig": sig, "what": what, "detail": detail}
 
 
+STORAGE = ["plain"]          # how the operand arrays of the current case are stored (set by run_case; same values, other memory layout)
+
+
 def forward(ns, op, form, xs, req, args):
     T = ns.Tensor
+    pool = {}
+    st = STORAGE[0]
+    mk = (lambda x: x.copy()) if st == "plain" else (lambda x: gen.as_storage(x.copy(), st, None, pool))
     if args.get("alias"):
-        t0 = T(xs[0].copy(), requires_grad=req[0])
+        t0 = T(mk(xs[0]), requires_grad=req[0])
         ts = [t0 for _ in xs]
     else:
-        ts = [T(x.copy(), requires_grad=r) for x, r in zip(xs, req)]
+        ts = [T(mk(x), requires_grad=r) for x, r in zip(xs, req)]
     out = op.forms[form](ns, ts, args)
     return ts, out
 
@@ -136,7 +142,8 @@ def run_case(ns, ctx, case):
     rng = gen.rng_for(case["seed"], "vals")
     xs = catalog.make_operands(case, rng)
     req = case["req"]
-    counters = {f"cases:{op.name}": 1}
+    STORAGE[0] = ["plain", "plain", "transposed", "strided", "plain", "shared-base"][case["seed"] % 6]      # Fortran-ordered / strided operand storage
+    counters = {f"cases:{op.name}": 1, f"storage:{STORAGE[0]}": 1}
     viol = []
     argclass = op.argclass(a, case["shapes"])
     sigbase = f"{op.name}:{argclass}"
